@@ -28,6 +28,7 @@ const (
 	FaultDelay    FaultKind = "delay"    // response delayed by Dur (virtual)
 	FaultStall    FaultKind = "stall"    // peer never answers; caller's own timeout fires
 	FaultCorrupt  FaultKind = "corrupt"  // request bytes rewritten by Mutate before delivery
+	FaultSlowDial FaultKind = "slowdial" // connecting takes Dur (virtual): the caller waits in its dial
 )
 
 // Fault is one armed fault on a link; it applies to the next Count dials.
@@ -189,6 +190,9 @@ func (n *Net) Dial(from, addr string) (net.Conn, error) {
 	n.seq++
 	id := n.seq
 	n.mu.Unlock()
+	if f != nil && f.Kind == FaultSlowDial {
+		time.Sleep(f.Dur)
+	}
 	if f != nil && f.Kind == FaultRefuse {
 		return nil, &net.OpError{Op: "dial", Net: "sim", Addr: simAddr(addr), Err: syscall.ECONNREFUSED}
 	}
